@@ -77,7 +77,16 @@ def make_list(rng, fmt):
                 idls.append(il)
             if fmt == 'dobs' and i > 0 and rng.random() < 0.25 and len(ens) > 1:
                 continue
-            parts.append(pe.Obs([_data(rng, len(il), kind) for il in idls], names, idl=idls))
+            data = [_data(rng, len(il), kind) for il in idls]
+            if len(names) > 1 and rng.random() < 0.3:
+                # an observable frozen on one replica (a topological charge stuck in one sector on a short run): a constant column that is
+                # neither absent nor equal to the mean over all replicas
+                k = int(rng.integers(0, len(names)))
+                c = float(rng.integers(-2, 5))
+                data[k] = np.full(len(idls[k]), c)
+                if abs(np.concatenate(data).mean() - c) < 1e-9:
+                    data[k] = data[k] + 1.0
+            parts.append(pe.Obs(data, names, idl=idls))
         if not parts:
             parts.append(pe.Obs([_data(rng, len(base[n]), kind) for n in list(base)[:1]], list(base)[:1], idl=[base[list(base)[0]]]))
         o = parts[0]
